@@ -168,6 +168,66 @@ Theorem C12_parent_locations_restored : forall r sq feats o, write_to_genbank r 
 Proof. exact write_parent_locations. Qed.
 Print Assumptions C12_parent_locations_restored.
 
+(* ---- the parent's annotations (nested dicts on a heap, shared by reference) ---- *)
+(* _build_annotations only allocates: the heap after the call is the heap before it followed by new
+   objects, so every dict that existed before - the record's annotations, its structured_comment, its
+   antiSMASH-Data table and anything else - holds what it held; the region record's annotations are a
+   new object.  For every heap, every address, every region on which the call returns *)
+Theorem C12_annotations_frame : forall r h orig h' top,
+  build_annotations_heap r h orig = Ok (h', top) ->
+  (exists e, h' = h ++ e) /\ (length h <= top)%nat /\
+  forall a, (a < length h)%nat -> nth_error h' a = nth_error h a.
+Proof. exact annotations_frame. Qed.
+Print Assumptions C12_annotations_frame.
+
+(* ... hence whatever tree could be read below any address before the call is read there afterwards *)
+Theorem C12_annotations_reads_kept : forall r h orig h' top,
+  build_annotations_heap r h orig = Ok (h', top) ->
+  forall a an, read_top h a = Some an -> read_top h' a = Some an.
+Proof. exact annotations_reads_kept. Qed.
+Print Assumptions C12_annotations_reads_kept.
+
+(* laying out a tree and reading it back is the identity (the heap view loses nothing) *)
+Theorem C12_annotations_load_read : forall an h h' a, load_top h an = (h', a) ->
+  exists e, h' = h ++ e /\ (length h <= a)%nat /\ read_top h' a = Some an.
+Proof. exact load_read. Qed.
+Print Assumptions C12_annotations_load_read.
+
+(* "writing region files leaves the full record unchanged", for the whole bio-level record: after
+   write_to_genbank the parent's features AND its annotations are what they were - every region, every
+   sequence, every feature list, every annotation tree on which the call returns *)
+Theorem C12_full_record_unchanged : forall r sq feats an o,
+  write_to_genbank_rec r sq feats an = Ok o ->
+  o_parent (o2_base o) = feats /\ ao_parent (o2_ann o) = Some an.
+Proof. exact write_rec_record_unchanged. Qed.
+Print Assumptions C12_full_record_unchanged.
+
+(* what the region file carries: the region record's annotations are the parent's with the
+   structured comment expected_sc - the parent's structured comment (none: an empty one) in which the
+   antiSMASH-Data table (none: a new one, added last) has NOTE, Orig. start and Orig. end set, an older
+   NOTE / Orig. entry replaced in its place, new keys appended in that order, every other table and
+   entry as in the parent.  Every annotation tree: no structured comment, structured comments without
+   antiSMASH-Data, and the antiSMASH comment of main.add_antismash_comments *)
+Theorem C12_file_annotations : forall r sq feats an o,
+  write_to_genbank_rec r sq feats an = Ok o ->
+  ao_file (o2_ann o) = Some (expected_annots r an) /\ file_sc (o2_ann o) = Some (expected_sc r an).
+Proof. exact write_rec_file_annotations. Qed.
+Print Assumptions C12_file_annotations.
+
+Theorem C12_file_annotations_entries : forall r t,
+  assoc K_note (expected_table r t) = Some (V_note, if crosses r then 1 else 0) /\
+  assoc K_ostart (expected_table r t) = Some (V_int, rstart r) /\
+  assoc K_oend (expected_table r t) = Some (V_int, rend r) /\
+  forall k, k <> K_note -> k <> K_ostart -> k <> K_oend -> assoc k (expected_table r t) = assoc k t.
+Proof. exact expected_table_entries. Qed.
+Print Assumptions C12_file_annotations_entries.
+
+(* the annotations never make the call fail, unless structured_comment is not a dict (AttributeError) *)
+Theorem C12_annotations_total : forall r an, (forall v, assoc K_sc an <> Some (TOpaque v)) ->
+  exists o, write_annotations r an = Ok o.
+Proof. exact write_annotations_total. Qed.
+Print Assumptions C12_annotations_total.
+
 (* ---- non-vacuity: the hypotheses are satisfiable on non-trivial inputs ---- *)
 Definition ex_seq := [0; 1; 2; 3; 3; 2; 1; 0; 0; 1; 2; 3].
 Definition ex_feats :=
@@ -241,3 +301,31 @@ Example C12_ex_parent_unchanged : exists r sq feats o,
   write_to_genbank r sq feats = Ok o /\ o_parent o = feats /\
   map fl1 feats = [None; Some w_core] /\ map fl1 (o_feats o) = [None; Some [mkPart 1 3 1]].
 Proof. exact parent_unchanged_witness. Qed.
+
+(* the annotations: a record as main.write_outputs hands it over (antiSMASH-Data with Version and Run
+   date, key codes 10, 12) keeps its annotations, the file gets NOTE / Orig. start / Orig. end on top *)
+Definition ex_annots : annots :=
+  [(20, TOpaque 30); (K_sc, TSc [(K_asdata, [(10, (0, 11)); (12, (0, 13))])])].
+
+Example C12_ex_annotations : exists o,
+  write_to_genbank_rec ex_cross_region ex_seq ex_cross_feats ex_annots = Ok o /\
+  file_sc (o2_ann o) = Some [(K_asdata, [(10, (0, 11)); (12, (0, 13)); (K_note, (V_note, 1));
+                                          (K_ostart, (V_int, 9)); (K_oend, (V_int, 4))])] /\
+  file_sc (o2_ann o) = Some (expected_sc ex_cross_region ex_annots) /\
+  ao_parent (o2_ann o) = Some ex_annots /\ o_parent (o2_base o) = ex_cross_feats.
+Proof. eexists. split; [vm_compute; reflexivity|]. repeat split; reflexivity. Qed.
+
+(* what the deep copy is for: with dict(original_annotations) in its place (the outermost dict copied,
+   the structured_comment dict shared) the same call leaves NOTE / Orig. start / Orig. end in the
+   parent's antiSMASH-Data table - the frame theorem is not a triviality of the heap model.  A parent
+   without structured_comment would not show it: the shallow copy is harmless there *)
+Example C12_ex_shallow_copy_leaks : exists o,
+  write_annotations_with dict_copy ex_cross_region ex_annots = Ok o /\
+  ao_parent o = Some [(20, TOpaque 30);
+                      (K_sc, TSc [(K_asdata, [(10, (0, 11)); (12, (0, 13)); (K_note, (V_note, 1));
+                                              (K_ostart, (V_int, 9)); (K_oend, (V_int, 4))])])] /\
+  ao_parent o <> Some ex_annots /\
+  (exists o', write_annotations_with dict_copy ex_cross_region [(20, TOpaque 30)] = Ok o' /\
+              ao_parent o' = Some [(20, TOpaque 30)]).
+Proof. eexists. split; [vm_compute; reflexivity|]. split; [reflexivity|]. split; [discriminate|].
+  eexists. split; [vm_compute; reflexivity|reflexivity]. Qed.
